@@ -15,7 +15,8 @@ import (
 type CtxCase struct {
 	Elems [][2]int `json:"elems"` // a, b of every element
 	Op    string   `json:"op"`
-	Mode  string   `json:"mode"` // splat: one document, `.[] | (...)`; docs: one document per element, eval-all
+	Mode  string   `json:"mode"`            // splat: one document, `.[] | (...)`; docs: one document per element, eval-all
+	Fresh bool     `json:"fresh,omitempty"` // the updated key does not exist yet (`.n += 1` on maps without n): created in every node
 }
 
 func genCtx(t *rapid.T) CtxCase {
@@ -23,10 +24,17 @@ func genCtx(t *rapid.T) CtxCase {
 	for i := rapid.IntRange(2, 4).Draw(t, "n"); i > 0; i-- {
 		c.Elems = append(c.Elems, [2]int{rapid.IntRange(-5, 20).Draw(t, "a"), rapid.IntRange(-5, 20).Draw(t, "b")})
 	}
+	c.Fresh = rapid.IntRange(0, 3).Draw(t, "fresh") == 0
+	if c.Fresh {
+		c.Op = "+="
+	}
 	return c
 }
 
 func checkCtx(c CtxCase) hx.Verdict {
+	if c.Fresh {
+		return checkCtxFresh(c)
+	}
 	var docs []string
 	want := model.NewSeq()
 	for _, e := range c.Elems {
@@ -65,4 +73,38 @@ func checkCtx(c CtxCase) hx.Verdict {
 		return hx.Bad("", "`%s` gives %s, expected %s (each match m gets m op e, e read from m's own node): input=%s", expr, gs.JSON(), want.JSON(), input)
 	}
 	return hx.OK(true, expr+input, "form:context_compound", "ctx:"+c.Mode)
+}
+
+// checkCtxFresh: `.n += b` where n does not exist: every node of the context gets n = b (null + b)
+func checkCtxFresh(c CtxCase) hx.Verdict {
+	var docs []string
+	want := model.NewSeq()
+	for _, e := range c.Elems {
+		docs = append(docs, fmt.Sprintf(`{"a": %d, "b": %d}`, e[0], e[1]))
+		want.Elem = append(want.Elem, model.NewMap().Set("a", model.NewInt(int64(e[0]))).Set("b", model.NewInt(int64(e[1]))).Set("n", model.NewInt(int64(e[1]))))
+	}
+	expr := ".[] | (.n += .b)"
+	input := "[" + strings.Join(docs, ", ") + "]"
+	opts := hx.Opts{In: "json", Out: "json", IndentSet: true}
+	if c.Mode == "docs" {
+		expr, input = ".n += .b", strings.Join(docs, "\n")+"\n"
+		opts.EvalAll = true
+	}
+	o := hx.Run(expr, input, opts)
+	if o.Crashed() {
+		return hx.Bad("panic-site:"+o.PanicSite, "panic %s: %s", o.Panic, expr)
+	}
+	if o.Err != "" {
+		return hx.Bad("", "compound assignment to a new key failed (%s): expr=%s input=%s", o.Err, expr, input)
+	}
+	got, err := model.ParseJSONStream(o.Out)
+	if err != nil || len(got) != len(want.Elem) {
+		return hx.Bad("", "`%s` gives %d results for %d nodes: %q input=%s", expr, len(got), len(want.Elem), o.Out, input)
+	}
+	for i := range got {
+		if !model.Equal(got[i], want.Elem[i]) {
+			return hx.Bad("", "`%s`: node %d becomes %s, expected %s (a new key is created in every node of the context): input=%s", expr, i, got[i].JSON(), want.Elem[i].JSON(), input)
+		}
+	}
+	return hx.OK(true, expr+input, "ctx:fresh_key", "mode:"+c.Mode)
 }
